@@ -123,7 +123,7 @@ InstStep(s, G, fuel) ==
 
 \* A whole definition: a single step, or a pipeline of steps
 Instantiate(def) ==
-    IF Len(def) = 1 THEN InstStep(def[1], GlobC, 8)
+    IF Len(def) = 1 /\ ~(def[1].of \/ def[1].oi) THEN InstStep(def[1], GlobC, 8)
     ELSE LET r == InstSeq(def, GlobC, 8, <<>>)
          IN IF ~r.ok THEN r
             ELSE Ok([kind |-> "pipe", steps |-> r.v, inv |-> FALSE, of |-> FALSE, oi |-> FALSE])
@@ -266,11 +266,13 @@ DefTextFrom(def, i, style) ==
                     ELSE IF i = 1 THEN "" ELSE " | "
              txt == StepText(s, IF style = "sugar" /\ ~Sugarable(s) THEN "suffix" ELSE style)
          IN sep \o txt \o DefTextFrom(def, i + 1, style)
-\* a leading sugar separator needs something in front of it: an empty step is insignificant
+\* A definition of one step that carries a directional omission is a pipeline
+\* of one step (a lone operator has nothing to be omitted from): it is written
+\* with a separator, `a omit_fwd |` or `< a` (empty steps are insignificant).
+OneStepPipeline(def) == Len(def) = 1 /\ (def[1].of \/ def[1].oi)
 DefText(def, style) ==
     LET t == DefTextFrom(def, 1, style)
-    IN IF Len(def) = 1 /\ ~(style = "sugar" /\ Sugarable(def[1])) THEN t
-       ELSE IF style = "sugar" /\ Sugarable(def[1]) THEN "noop" \o t ELSE t
+    IN IF OneStepPipeline(def) /\ ~(style = "sugar" /\ Sugarable(def[1])) THEN t \o " |" ELSE t
 
 ResourceTexts == TLCEval([n \in DOMAIN ResC |-> DefText(ResC[n], "suffix")])
 
@@ -384,9 +386,7 @@ ExpansionInv == tree.ok =>
 
 ExpansionText(t) == LET fl == Flatten(t, FALSE, FALSE, FALSE)
                         df == [i \in 1..Len(fl) |-> LeafStepOf(fl[i])]
-                    IN IF Len(df) = 1 /\ (df[1].of \/ df[1].oi)
-                       THEN "noop | " \o DefText(df, "suffix")     \* a lone step cannot be omitted: give it a pipeline
-                       ELSE DefText(df, "suffix")
+                    IN DefText(df, "suffix")
 
 PlanText(plan) == [i \in 1..Len(plan) |->
     [def |-> Sp(plan[i][1].name, JoinStr([j \in 1..Len(Gamut(plan[i][1].name)) |->
